@@ -239,7 +239,8 @@ def run(ck, m):
     sz = m.get(CM, "Size")
     members = [norm(s.targets[0]) for s in sz.body if isinstance(s, ast.Assign)]
     refs = {n.attr for n in body_walk(vs) if isinstance(n, ast.Attribute) and norm(n.value) == "Size"}
-    ck.ob("R4", vs, set(members) == refs and len(members) == 4, f"Size members {members} vs members handled by _valid_size {sorted(refs)}: a mode without a branch silently behaves like FIT", stmt="_valid_size handles every Size member")
+    # (FIT is the fall-through: it needs no mention)
+    ck.ob("R4", vs, set(members) - {"FIT"} <= refs <= set(members) and len(members) == 4, f"Size members {members} vs members handled by _valid_size {sorted(refs)}: a mode without a branch silently behaves like FIT", stmt="_valid_size handles every Size member")
 
     # ---- R5 ----------------------------------------------------------------------------
     auto = next((s for s in body_walk(vs) if isinstance(s, ast.If) and norm(s.test) == "Size.AUTO in (width, height)"), None)
